@@ -248,7 +248,7 @@ DATA_EDITS = ['insert-unknown-in-signed-region', 'insert-unknown-in-siginfo', 'i
 INTEREST_EDITS = ['insert-unknown-after-appparams', 'insert-unknown-in-siginfo', 'insert-unknown-before-sigvalue', 'name-append',
                   'name-drop-first', 'appparam-append-byte', 'sigtype-change', 'keylocator-rename', 'sigvalue-append-zero',
                   'sigvalue-drop-last', 'sigvalue-empty', 'sigvalue-remove-element', 'append-unknown-at-end',
-                  'drop-appparams', 'sigvalue-strip-leading-zero', 'sigvalue-prepend-zero']
+                  'drop-appparams', 'sigvalue-strip-leading-zero', 'sigvalue-prepend-zero', 'drop-appparams-digest-of-nothing']
 
 
 def apply_edit(kind, wire, name, redigest=True):
@@ -281,6 +281,15 @@ def apply_edit(kind, wire, name, redigest=True):
         ok = True
     elif name == 'drop-appparams' and pl is not None:
         del top[1][i_pl]
+        ok = True
+    elif name == 'drop-appparams-digest-of-nothing' and kind == 'interest' and pl is not None \
+            and any(c[0] == P.T_PARAMS for c in nm[1]):
+        # no ApplicationParameters (nor anything after them) is left, and the digest component is SHA-256 of NO bytes
+        top[1][:] = [e for e in top[1] if e[0] not in (P.T_APP, P.T_ISIGINFO, P.T_ISIGVAL)]
+        for c in nm[1]:
+            if c[0] == P.T_PARAMS:
+                c[1] = hashlib.sha256(b'').digest()
+        redigest = False
         ok = True
     elif name == 'name-append' and i_sv is not None:
         nm[1].append([8, b'evil'])
@@ -480,6 +489,8 @@ def run_packet(case, rng, thorough, col=None, only_mut=None, wire_override=None)
                     payload = c01.resolve_payload(case)
                     wire, rec = build(case, payload)
         except Exception as e:
+            if case.get('two_digest_components') and isinstance(e, ValueError):
+                return out         # refused: nothing was handed to a signer, no packet exists
             return [(f'C02:{fn}:raises', f'{fn} raised {type(e).__name__}: {e}', None)]
     else:
         wire = wire_override
@@ -575,6 +586,18 @@ def gen_cases(tier, seed):
         for sk in ('rsa1024', 'rsa2048') if thorough else ('rsa1024',):
             c = one(kind, sk, {'len': 24}, small=True)
             c['want_leading_zero_signature'] = True
+            cases.append(c)
+    # a name that already holds TWO parameters-digest components (the final name of an earlier Interest used as a prefix plus a
+    # placeholder): either refused, or - if a packet is emitted - judged like every other packet (the strict reading of the
+    # wire refuses two digest components, and a signer must never be handed one)
+    for sk in ('digest', 'hmac', 'p256', 'none'):
+        for pos in ((0, 1), (1, 2), (0, 2), (2, 3)):
+            c = one('interest', sk, {'len': 4}, small=True)
+            comps = list(c['name']['comps'])
+            for k in pos:
+                comps.insert(min(k, len(comps)), P.enc_tlv(P.T_PARAMS, rng.randbytes(32)).hex())
+            c['name'] = dict(c['name'], comps=comps)
+            c['two_digest_components'] = True
             cases.append(c)
     if not thorough:
         cases.append(one('data', 'p256', {'len': 70000}))
